@@ -85,8 +85,23 @@ def _restore_paths_of(ctx, cls, owner, fn):
     p = params[0]
     out: dict[str, tuple] = {}
     other = []
+    alias: dict[str, tuple] = {p: ()}  # local name -> field path it stands for (`info = solver_state.info`)
+
+    def path_of(v):
+        path = []
+        while isinstance(v, ast.Attribute):
+            path.append(v.attr)
+            v = v.value
+        if isinstance(v, ast.Name) and v.id in alias:
+            return alias[v.id] + tuple(reversed(path))
+        return None
+
     for s in fn.body:
         if isinstance(s, ast.Expr) and isinstance(s.value, ast.Constant):
+            continue
+        if isinstance(s, ast.Assign) and len(s.targets) == 1 and isinstance(s.targets[0], ast.Name) and path_of(s.value) is not None \
+                and s.targets[0].id != p:
+            alias[s.targets[0].id] = path_of(s.value)
             continue
         if isinstance(s, ast.Expr) and isinstance(s.value, ast.Call) and ast.unparse(s.value.func).startswith("logger."):
             continue
@@ -107,11 +122,9 @@ def _restore_paths_of(ctx, cls, owner, fn):
             while isinstance(v, ast.Call) and len(v.args) == 1 and not v.keywords and ast.unparse(v.func) in (
                     "jnp.asarray", "jnp.array", "np.asarray", "np.array", "int", "float"):
                 v = v.args[0]
-            while isinstance(v, ast.Attribute):
-                path.append(v.attr)
-                v = v.value
-            if isinstance(v, ast.Name) and v.id == p:
-                out[s.targets[0].attr] = tuple(reversed(path))
+            pth = path_of(v)
+            if pth is not None:
+                out[s.targets[0].attr] = pth
                 continue
         other.append(s)
     return owner, fn, out, other
